@@ -200,7 +200,7 @@ var solvers = []solverSpec{
 	{"z3-new", func(f string, t int) []string { return []string{"z3-new", fmt.Sprintf("-T:%d", t), f} }, nil},
 	{"z3", func(f string, t int) []string { return []string{"z3", fmt.Sprintf("-T:%d", t), f} }, nil},
 	{"cvc5", func(f string, t int) []string {
-		return []string{"cvc5", "--lang=smt2", "--produce-models", fmt.Sprintf("--tlimit=%d", t*1000), f}
+		return []string{"cvc5", "--lang=smt2", "--produce-models", "--strings-exp", fmt.Sprintf("--tlimit=%d", t*1000), f}
 	}, nil},
 }
 
@@ -249,6 +249,14 @@ func runQuery(dir, name, body string, timeoutS int, hasQuant bool, seed int) Sol
 			cmd.Run()
 			ms := time.Since(start).Milliseconds()
 			txt := out.String()
+			// drop solver warnings in front of the answer
+			for strings.HasPrefix(txt, "WARNING") || strings.HasPrefix(txt, "(warning") {
+				i := strings.Index(txt, "\n")
+				if i < 0 {
+					break
+				}
+				txt = txt[i+1:]
+			}
 			first := strings.TrimSpace(strings.SplitN(txt, "\n", 2)[0])
 			res := SolverResult{Solver: s.name, Ms: ms, Raw: txt}
 			switch {
